@@ -10,7 +10,13 @@
 //     the second time (the store wrapper sees the isEmpty() read the loop itself makes and ends the goroutine
 //     there); the result class is read off what the loop did (did it read the pending range, did it reach the DA
 //     layer, did the loop function itself log an error) — in cases with Loop = false the loop body through the
-//     block/verif_export.go hooks (isEmpty, getPendingHeaders | createSignedDataToSubmit, submit…ToDA),
+//     block/verif_export.go hooks (isEmpty, getPendingHeaders | createSignedDataToSubmit, submit…ToDA); in cases
+//     with Life = true (half of the Loop cases, and every case of the DA-outage stream) the two loop functions are
+//     started ONCE per process, as node/full.go starts them, and the SAME two goroutines serve every tick of the
+//     history (parked between ticks at the isEmpty() read that begins an iteration; stopped — context cancelled —
+//     at a restart, where the new process starts its own): a loop function that RETURNS while the node runs
+//     serves no further tick, nobody else does its work, and the oracles below see what that does to production;
+//     whether each loop function is still running is reported per item and compared with Model/ThrottleLoop.v,
 //   - node configuration per case: config.Node.LazyMode on / off, MaxPendingHeadersAndData 1..10 (and 255..1000),
 //   - blocks whose transactions weigh 1 KB .. 1.9 MB (the DA double takes blobs up to 1,974,272 bytes),
 //   - restarts (NewManager on the same datastore),
@@ -22,8 +28,9 @@
 //     scheduler is free to pick.  The point at which each iteration ran is classified from the call stack (which
 //     function of block/ is reading) and reported to the model as a ThrottleConc.sched,
 //
-// against a scripted DA double that answers truthfully (accept k of n | failure; script end = the caller's
-// context is cancelled).  A DA outage of length n = n failures followed by acceptance; n may exceed
+// against a scripted DA double that answers truthfully (accept k of n | failure; script end = the DA layer
+// answers "context canceled" — context.Canceled, what the DA client reports when the remote DA node drops a
+// request — while the node's own context is alive).  A DA outage of length n = n failures followed by acceptance; n may exceed
 // maxSubmitAttempts.  Everything runs in testing/synctest bubbles (the backoff sleeps are virtual).
 // Writes cases_C08.v (for Model/Throttle.v) and result.json (Go oracle: refusal justified, resumption,
 // no deadlock, limit enforced — evaluated on the real store and the DA double's own record).
@@ -102,6 +109,7 @@ type Replay struct {
 	Limit   uint64 `json:"limit"`
 	Lazy    bool   `json:"lazy,omitempty"` // config.Node.LazyMode
 	Loop    bool   `json:"loop,omitempty"` // submission iterations = one tick of the REAL HeaderSubmissionLoop / DataSubmissionLoop (else: the loop body through the hooks)
+	Life    bool   `json:"life,omitempty"` // with Loop: the two loop functions are started ONCE per process (as node/full.go does) and the same two goroutines serve every tick of the history (else: a fresh goroutine per tick)
 	History []Item `json:"history"`
 }
 
@@ -109,6 +117,7 @@ type Replay struct {
 type caseOpt struct {
 	lazy bool // config.Node.LazyMode
 	loop bool // drive the real submission loops, one tick per iteration
+	life bool // … as the two long-lived goroutines of the process (started at process start, stopped at restart)
 }
 
 // daMaxBlob: what the DA double takes in one blob (the default of local-da / the jsonrpc client: 64*64*482)
@@ -171,7 +180,12 @@ func genLimit(r *rand.Rand) uint64 {
 }
 
 // lazy or normal mode; the real loops or the loop bodies through the hooks
-func genOpt(r *rand.Rand) caseOpt { return caseOpt{lazy: r.Intn(2) == 0, loop: r.Intn(2) == 0} }
+// (of the cases on the real loops, half let the SAME two goroutines serve every tick: long-lived loops)
+func genOpt(r *rand.Rand) caseOpt {
+	o := caseOpt{lazy: r.Intn(2) == 0, loop: r.Intn(2) == 0}
+	o.life = r.Intn(2) == 0 && o.loop
+	return o
+}
 
 func genHistory(r *rand.Rand, maxLen int) (uint64, uint64, []Item) {
 	init := []uint64{1, 1, 1, 2, 5, 12, 1000}[r.Intn(7)]
@@ -580,6 +594,88 @@ func genSizes(r *rand.Rand) (uint64, uint64, []Item) {
 	return init, limit, h
 }
 
+// one tick's worth of answers of a DA layer that is down: n answers of the failure kind f, after which the tick ends
+// because the iteration gave up (n >= maxSubmitAttempts) or because the DA layer answered "context canceled" (the
+// script ends there: coreda.ErrContextCanceled / context.Canceled from the DA client — what a DA node that is
+// restarting or drops the request reports — while the node's own context is alive)
+func downTick(r *rand.Rand, f string) []Outcome {
+	var n int
+	switch x := r.Intn(10); {
+	case x < 3:
+		n = 0 // "context canceled" at once
+	case x < 7:
+		n = 1 + r.Intn(4) // some failures, then "context canceled"
+	default:
+		n = 30 + r.Intn(5) // the iteration gives up
+	}
+	sc := make([]Outcome, n)
+	for i := range sc {
+		sc[i] = Outcome{O: "fail", F: f}
+	}
+	return sc
+}
+
+// DA-outage stream: the two LONG-LIVED loops of the process (Life), limits 1..5.  The chain is brought to the limit
+// or close to it (the loops keeping up or not), then the DA layer has an outage of FINITE length that spans
+// 1..4 ticks of each loop: every request of those ticks is answered with one failure kind per outage (timeout,
+// mempool, too big, sequence, generic) and every tick ends with the iteration giving up or with the DA layer
+// answering "context canceled"; production is attempted meanwhile (refused at the limit, rightly); optionally a
+// restart in the middle.  Then the outage is over: rounds of (each loop's tick against the accepting DA layer, in
+// either order, one attempt) — the backlog must reach the DA layer and production must go on, block after block.
+// An outage is something the loops live through: what a tick met must not decide whether there is a next tick.
+func genOutage(r *rand.Rand) (uint64, uint64, []Item) {
+	init := []uint64{1, 1, 1, 2, 5}[r.Intn(5)]
+	limit := []uint64{1, 2, 3, 4, 5, 2, 3}[r.Intn(7)]
+	pNE := []int{100, 70, 40, 0}[r.Intn(4)]
+	var h []Item
+	pair := func() {
+		if r.Intn(2) == 0 {
+			h = append(h, Item{T: "headers", SC: acceptAll()}, Item{T: "data", SC: acceptAll()})
+		} else {
+			h = append(h, Item{T: "data", SC: acceptAll()}, Item{T: "headers", SC: acceptAll()})
+		}
+	}
+	produce := func() { h = append(h, Item{T: "produce", NE: r.Intn(100) < pNE}) }
+	h = append(h, Item{T: "produce"}) // the stored genesis block
+	// before the outage: some blocks, the loops keeping up with some of them
+	for j, k := 0, r.Intn(3); j < k; j++ {
+		produce()
+		if r.Intn(2) == 0 {
+			pair()
+		}
+	}
+	for seg, nseg := 0, 1+r.Intn(2); seg < nseg; seg++ {
+		// the outage begins; the chain runs into the limit
+		f := fkinds[r.Intn(len(fkinds))]
+		ticks := 1 + r.Intn(4)
+		for t := 0; t < ticks; t++ {
+			for j, k := 0, r.Intn(int(limit)+2); j < k; j++ {
+				produce()
+			}
+			switch r.Intn(4) {
+			case 0:
+				h = append(h, Item{T: "headers", SC: downTick(r, f)})
+			case 1:
+				h = append(h, Item{T: "data", SC: downTick(r, f)})
+			default:
+				h = append(h, Item{T: "headers", SC: downTick(r, f)}, Item{T: "data", SC: downTick(r, f)})
+			}
+			if r.Intn(8) == 0 {
+				h = append(h, Item{T: "restart"})
+			}
+		}
+		for j, k := 0, int(limit)+1; j < k; j++ { // whatever room is left is used up: production stands at the limit
+			produce()
+		}
+		// the outage is over
+		for j, k := 0, 2+r.Intn(int(limit)+1); j < k; j++ {
+			pair()
+			produce()
+		}
+	}
+	return init, limit, h
+}
+
 // ---- doubles -----------------------------------------------------------------------------------
 
 type seqDouble struct {
@@ -619,6 +715,7 @@ type daDouble struct {
 	accepted map[string][][]byte // kind -> accepted blobs in order
 	daHeight uint64
 	touched  int // requests received, including those answered "context cancelled" (script used up), which are not recorded
+	ncancel  int // requests answered "context canceled"
 }
 
 func fErr(f string) error {
@@ -652,7 +749,8 @@ func (d *daDouble) SubmitWithOptions(ctx context.Context, blobs []coreda.Blob, g
 	d.mu.Lock()
 	defer d.mu.Unlock()
 	d.touched++
-	if len(d.script) == 0 { // script used up: the context of the caller is cancelled
+	if len(d.script) == 0 { // script used up: the DA layer answers "context canceled" (the node's own context is alive)
+		d.ncancel++
 		return nil, context.Canceled
 	}
 	o := d.script[0]
@@ -734,8 +832,9 @@ type world struct {
 	m       *block.Manager
 	ctx     context.Context
 	rootDir string
-	att     *attemptCtx // set while an interleaved production attempt runs
-	tick    *tickCtx    // set while a real submission loop runs its tick
+	att     *attemptCtx          // set while an interleaved production attempt runs
+	tick    *tickCtx             // set while a real submission loop runs its tick
+	loops   map[string]*loopProc // Life: the two loop goroutines of the running process ("headers", "data")
 	opt     caseOpt
 	res     *caseResult
 	accOK   map[string]uint64 // oracle cache: accepted blob (kind, index) -> height, once compared with the block store
@@ -803,6 +902,7 @@ func newWorld(r *rand.Rand, init, limit uint64, opt caseOpt, rootDir string) (*w
 
 // start = what a process start does for the block manager: NewManager on the datastore
 func (w *world) start() error {
+	w.stopLoops() // the old process ends: its context is cancelled, its loops return
 	w.st = store.New(w.kv)
 	w.seq = &seqDouble{}
 	lg := &recLogger{EventLogger: logging.Logger("c08"), w: w}
@@ -814,6 +914,9 @@ func (w *world) start() error {
 		return err
 	}
 	w.m = m
+	if w.opt.life {
+		w.startLoops()
+	}
 	return nil
 }
 
@@ -925,7 +1028,17 @@ func hasFn(fs []string, name string) bool {
 //
 // Reads made for the refusal's log message and anything after SetHeight are no points.
 func (w *world) storeCall(method string, h uint64, key string, value []byte) {
-	if t := w.tick; t != nil {
+	if w.opt.life {
+		// long-lived loops: a store call made by one of the two loop goroutines (whenever its ticker lets it) is
+		// recognised by the loop function on its stack; everything else is the aggregation goroutine
+		if fs := callerFuncs(); hasFn(fs, "HeaderSubmissionLoop") {
+			w.lifeCall(w.loops["headers"], method, fs)
+			return
+		} else if hasFn(fs, "DataSubmissionLoop") {
+			w.lifeCall(w.loops["data"], method, fs)
+			return
+		}
+	} else if t := w.tick; t != nil {
 		w.tickCall(t, method)
 		return
 	}
@@ -1010,6 +1123,9 @@ func (w *world) tickCall(t *tickCtx, method string) {
 // as the node starts them, run until their first tick has been served), or — cases with Loop = false — the loop
 // body through the hooks
 func (w *world) sub(T string, sc []Outcome) (int, [][]uint64) {
+	if w.opt.life {
+		return w.runTickLife(T, sc)
+	}
 	if w.opt.loop {
 		return w.runTick(T, sc)
 	}
@@ -1062,6 +1178,159 @@ func (w *world) runTick(T string, sc []Outcome) (r int, calls [][]uint64) {
 	}
 	w.res.nTicks++
 	return r, w.subCalls(T, n0, r)
+}
+
+// ---- long-lived loops (Life) ------------------------------------------------------------------------------
+// The process's two loop goroutines, started once by start() exactly as node/full.go Run starts them
+// (go m.HeaderSubmissionLoop(ctx); go m.DataSubmissionLoop(ctx)) and stopped when the process ends (restart, end of
+// the case).  Between two ticks of the history a loop goroutine is PARKED at the first thing every iteration does —
+// the isEmpty() read the loop function itself makes after its ticker fired (inside the store wrapper's Height()):
+// it got there by itself, on its own ticker, in virtual time.  A tick of the history lets it go on from there; the
+// tick is over when the loop comes round to that read again (all attempts, all backoff sleeps of the iteration
+// done) — or when the loop function RETURNS instead.  A loop function that has returned serves no tick: nobody
+// else does the loop's work, as in the node.
+type loopProc struct {
+	kind   string
+	cancel context.CancelFunc
+	stop   chan struct{} // closed when the process ends: a parked goroutine ends there (deferred ticker.Stop runs)
+	done   chan struct{} // closed when the loop goroutine is gone (the function returned, or the process ended)
+	gate   chan *tickCtx // harness -> loop: serve one tick
+	came   chan struct{} // loop -> harness: came round to the top of the for loop
+	cur    *tickCtx      // the tick being served (only the loop goroutine touches it between gate and came)
+}
+
+func (w *world) startLoops() {
+	w.loops = map[string]*loopProc{}
+	for _, T := range []string{"headers", "data"} {
+		ctx, cancel := context.WithCancel(w.ctx)
+		lp := &loopProc{kind: T, cancel: cancel, stop: make(chan struct{}), done: make(chan struct{}), gate: make(chan *tickCtx), came: make(chan struct{})}
+		w.loops[T] = lp
+		m, T := w.m, T
+		go func() {
+			defer close(lp.done)
+			if T == "headers" {
+				m.HeaderSubmissionLoop(ctx)
+			} else {
+				m.DataSubmissionLoop(ctx)
+			}
+		}()
+	}
+}
+
+// the process ends (restart / end of the case): the node's context is cancelled
+func (w *world) stopLoops() {
+	for _, T := range []string{"headers", "data"} {
+		lp := w.loops[T]
+		if lp == nil {
+			continue
+		}
+		close(lp.stop)
+		lp.cancel()
+		<-lp.done
+	}
+	w.loops = nil
+}
+
+// is the loop function of the running process still running (has not returned)?  true when not observed
+func (w *world) loopThere(T string) bool {
+	lp := w.loops[T]
+	if lp == nil {
+		return true
+	}
+	select {
+	case <-lp.done:
+		return false
+	default:
+		return true
+	}
+}
+
+// a store call made by a long-lived loop goroutine
+func (w *world) lifeCall(lp *loopProc, method string, fs []string) {
+	switch {
+	case method == "Height" && hasFn(fs, "isEmpty"):
+		if lp.cur != nil { // the tick under way is over
+			lp.cur = nil
+			select {
+			case lp.came <- struct{}{}:
+			case <-lp.stop:
+				runtime.Goexit()
+			}
+		}
+		select {
+		case t := <-lp.gate:
+			lp.cur = t
+		case <-lp.stop:
+			runtime.Goexit()
+		}
+	case hasFn(fs, "getPending"):
+		if lp.cur != nil {
+			lp.cur.fetched = true
+		}
+	}
+}
+
+// one tick of the history served by the long-lived loop goroutine of the process
+func (w *world) runTickLife(T string, sc []Outcome) (r int, calls [][]uint64) {
+	lp := w.loops[T]
+	w.da.script = append([]Outcome{}, sc...)
+	n0, t0 := len(w.da.calls), w.da.touched
+	tk := &tickCtx{}
+	w.tick = tk
+	guard := time.NewTimer(tickCap)
+	defer guard.Stop()
+	served := false
+	select {
+	case lp.gate <- tk:
+		served = true
+		select {
+		case <-lp.came:
+		case <-lp.done: // the loop function returned in the middle of the history
+		case <-guard.C:
+			w.res.fail("submission-loop-never-came-round", fmt.Sprintf("%s submission loop: a day after its tick began the loop has not come back to the top of its for loop", T))
+		}
+	case <-lp.done: // the loop function has returned earlier: nobody serves this tick
+	case <-guard.C:
+		w.res.fail("submission-loop-never-came-round", fmt.Sprintf("%s submission loop: a day of ticker time and the loop has not begun an iteration", T))
+	}
+	w.tick = nil
+	w.da.script = nil
+	touched := w.da.touched > t0
+	switch {
+	case !served:
+		r = 5
+		w.res.nUnserved++
+	case tk.loopErr && touched:
+		r = 4
+	case tk.loopErr:
+		r = 2
+	case touched:
+		r = 3
+	case tk.fetched:
+		r = 1
+	default:
+		r = 0
+	}
+	w.res.nTicks++
+	w.res.nLifeTicks++
+	return r, w.subCalls(T, n0, r)
+}
+
+// for the oracle's messages: which loop functions of the running process have returned
+func (w *world) goneNote() string {
+	var g []string
+	for _, T := range []string{"headers", "data"} {
+		if !w.loopThere(T) {
+			g = append(g, T)
+		}
+	}
+	if len(g) == 0 {
+		return ""
+	}
+	if len(g) == 2 {
+		return " [the headers and the data submission loop functions of the running node have RETURNED: their ticks are served by nobody]"
+	}
+	return fmt.Sprintf(" [the %s submission loop function of the running node has RETURNED: its ticks are served by nobody]", g[0])
 }
 
 // the DA requests an iteration made (blob heights of each), with the oracle's checks on them
@@ -1215,6 +1484,7 @@ type itemOut struct {
 	height  uint64
 	wh, wd  uint64 // in-memory watermarks after the item
 	ph, pd  uint64 // recorded watermarks after the item (0 = none)
+	lh, ld  bool   // Life: the header / data loop function of the running process has not returned, after the item
 	inter   bool   // an interleaved attempt: subs = what each iteration inside it did, in order
 	subs    []firedSub
 	late    []SubIt // scheduled inside the attempt but never reached: run after it
@@ -1238,6 +1508,9 @@ type caseResult struct {
 	nInterProd int
 	points     map[string]int // where interleaved iterations ran
 	nTicks     int            // submission iterations served by the real loops
+	nLifeTicks int            // … of them by the long-lived loop goroutines of the process
+	nUnserved  int            // ticks nobody served (the loop function had returned)
+	nCancelAns int            // DA requests answered "context canceled"
 	sizes      map[string]int // DA requests by the size of their largest blob
 }
 
@@ -1314,10 +1587,12 @@ func runCase(seed int64, c int, init, limit uint64, opt caseOpt, hist []Item, ro
 		return
 	}
 	w.res = res
+	defer w.stopLoops() // the bubble ends with the process
 	obs := func(io *itemOut) {
 		io.height = w.height()
 		io.wh, io.wd = w.m.VerifLastSubmittedHeaderHeight(), w.m.VerifLastSubmittedDataHeight()
 		io.ph, io.pd = w.persisted("h"), w.persisted("d")
+		io.lh, io.ld = w.loopThere("headers"), w.loopThere("data")
 		res.outs = append(res.outs, *io)
 	}
 	// the limit is enforced: never more than L committed blocks whose header the DA layer does not hold
@@ -1434,7 +1709,7 @@ func runCase(seed int64, c int, init, limit uint64, opt caseOpt, hist []Item, ro
 				res.nStale++
 			}
 			if acceptingPair(hist, i-1) {
-				res.fail("production-stopped-although-da-accepts", fmt.Sprintf("limit %d, initial height %d: block %d refused right after a header and a data submission iteration that the DA layer accepted", limit, init, before+1))
+				res.fail("production-stopped-although-da-accepts", fmt.Sprintf("limit %d, initial height %d: block %d refused right after a header and a data submission iteration that the DA layer accepted%s", limit, init, before+1, w.goneNote()))
 			}
 			return true
 		}
@@ -1474,7 +1749,7 @@ func runCase(seed int64, c int, init, limit uint64, opt caseOpt, hist []Item, ro
 			if allEmpty && before >= w.gen.InitialHeight {
 				sig = "production-stopped-although-da-accepts:all-empty-chain"
 			}
-			res.fail(sig, fmt.Sprintf("limit %d, initial height %d: block %d refused right after a header and a data submission iteration that the DA layer accepted", limit, init, before+1))
+			res.fail(sig, fmt.Sprintf("limit %d, initial height %d: block %d refused right after a header and a data submission iteration that the DA layer accepted%s", limit, init, before+1, w.goneNote()))
 		}
 		return true
 	}
@@ -1518,7 +1793,7 @@ func runCase(seed int64, c int, init, limit uint64, opt caseOpt, hist []Item, ro
 					}
 				}
 				if nwait, first := w.waiting(); hacc && dacc && nwait > 0 {
-					res.fail("blocks-left-waiting-after-accepting-iterations", fmt.Sprintf("limit %d, initial height %d, height %d: a refused attempt had a header and a data submission iteration inside that the DA layer accepted, yet %d committed block(s) still wait (first: %d)", limit, init, w.height(), nwait, first))
+					res.fail("blocks-left-waiting-after-accepting-iterations", fmt.Sprintf("limit %d, initial height %d, height %d: a refused attempt had a header and a data submission iteration inside that the DA layer accepted, yet %d committed block(s) still wait (first: %d)%s", limit, init, w.height(), nwait, first, w.goneNote()))
 				}
 			}
 			for _, sb := range io.late {
@@ -1556,7 +1831,7 @@ func runCase(seed int64, c int, init, limit uint64, opt caseOpt, hist []Item, ro
 			// iteration nothing committed is left waiting
 			if acceptingPair(hist, i) {
 				if nwait, first := w.waiting(); nwait > 0 {
-					res.fail("blocks-left-waiting-after-accepting-iterations", fmt.Sprintf("limit %d, initial height %d, height %d: after a header and a data submission iteration that the DA layer accepted, %d committed block(s) still wait (first: %d, non-empty: %v; header watermark %d, data watermark %d)", limit, init, w.height(), nwait, first, w.nonEmpty(first), w.m.VerifLastSubmittedHeaderHeight(), w.m.VerifLastSubmittedDataHeight()))
+					res.fail("blocks-left-waiting-after-accepting-iterations", fmt.Sprintf("limit %d, initial height %d, height %d: after a header and a data submission iteration that the DA layer accepted, %d committed block(s) still wait (first: %d, non-empty: %v; header watermark %d, data watermark %d)%s", limit, init, w.height(), nwait, first, w.nonEmpty(first), w.m.VerifLastSubmittedHeaderHeight(), w.m.VerifLastSubmittedDataHeight(), w.goneNote()))
 				}
 			}
 			obs(&io)
@@ -1564,6 +1839,7 @@ func runCase(seed int64, c int, init, limit uint64, opt caseOpt, hist []Item, ro
 	}
 	res.height = w.height()
 	res.ncalls = len(w.da.calls)
+	res.nCancelAns = w.da.ncancel
 	for _, c := range w.da.calls {
 		for i := 0; i < c.accepted; i++ {
 			if c.kind == "d" {
@@ -1705,6 +1981,7 @@ func TestVerif(t *testing.T) {
 		inter       bool
 		repeat      bool
 		sizes       bool
+		outage      bool
 	}
 	var jobs []job
 	if e.Replay != "" {
@@ -1712,7 +1989,7 @@ func TestVerif(t *testing.T) {
 		if err := vgen.LoadReplay(e.Replay, &rp); err != nil {
 			t.Fatal(err)
 		}
-		jobs = append(jobs, job{seed: rp.Seed, c: rp.Case, init: rp.Init, limit: rp.Limit, hist: rp.History, opt: caseOpt{lazy: rp.Lazy, loop: rp.Loop}})
+		jobs = append(jobs, job{seed: rp.Seed, c: rp.Case, init: rp.Init, limit: rp.Limit, hist: rp.History, opt: caseOpt{lazy: rp.Lazy, loop: rp.Loop || rp.Life, life: rp.Life}})
 	} else {
 		files, _ := filepath.Glob("../corpus/C08/*.json")
 		if os.Getenv("VERIF_NO_CORPUS") != "" {
@@ -1721,7 +1998,7 @@ func TestVerif(t *testing.T) {
 		for _, f := range files {
 			var rp Replay
 			if vgen.LoadReplay(f, &rp) == nil && rp.History != nil {
-				jobs = append(jobs, job{seed: rp.Seed, c: rp.Case, init: rp.Init, limit: rp.Limit, hist: rp.History, opt: caseOpt{lazy: rp.Lazy, loop: rp.Loop}})
+				jobs = append(jobs, job{seed: rp.Seed, c: rp.Case, init: rp.Init, limit: rp.Limit, hist: rp.History, opt: caseOpt{lazy: rp.Lazy, loop: rp.Loop || rp.Life, life: rp.Life}})
 			}
 		}
 		// the size-boundary stream: 2 cases per run (quick), 3 per shard (thorough)
@@ -1744,6 +2021,10 @@ func TestVerif(t *testing.T) {
 		for c := 0; c < e.N/10; c++ {
 			jobs = append(jobs, job{seed: e.Seed, c: 4000000 + c, sizes: true})
 		}
+		// the DA-outage stream (long-lived loops): N/10 cases on top
+		for c := 0; c < e.N/10; c++ {
+			jobs = append(jobs, job{seed: e.Seed, c: 5000000 + c, outage: true})
+		}
 		for c := 0; c < e.N; c++ {
 			jobs = append(jobs, job{seed: e.Seed, c: c})
 		}
@@ -1765,6 +2046,10 @@ func TestVerif(t *testing.T) {
 			init, limit, hist = genSizes(caseRng(j.seed, j.c))
 			opt.loop = true
 			res.Count("stream:blob-sizes")
+		} else if hist == nil && j.outage {
+			init, limit, hist = genOutage(caseRng(j.seed, j.c))
+			opt.loop, opt.life = true, true
+			res.Count("stream:da-outage")
 		} else if hist == nil && j.boundary {
 			init, limit, hist = genBoundary(caseRng(j.seed, j.c), j.c-1000000)
 			res.Count("stream:size-boundary")
@@ -1786,7 +2071,16 @@ func TestVerif(t *testing.T) {
 		res.Count(fmt.Sprintf("limit:%d", limit))
 		res.Count(map[bool]string{true: "mode:lazy", false: "mode:normal"}[opt.lazy])
 		res.Count(map[bool]string{true: "iterations:real-loop-tick", false: "iterations:loop-body-through-hooks"}[opt.loop])
+		if opt.life {
+			res.Count("iterations:real-loop-tick:long-lived-goroutines")
+		}
 		res.Distribution["iteration:served-by-the-real-loop"] += cr.nTicks
+		res.Distribution["iteration:served-by-a-long-lived-loop-goroutine"] += cr.nLifeTicks
+		res.Distribution["iteration:served-by-nobody-the-loop-function-had-returned"] += cr.nUnserved
+		res.Distribution["da-answer:context-canceled"] += cr.nCancelAns
+		if opt.life {
+			res.Distribution["da-answer:context-canceled:to-a-long-lived-loop-goroutine"] += cr.nCancelAns
+		}
 		for k, n := range cr.sizes {
 			res.Distribution["da-request:largest-blob:"+k] += n
 		}
@@ -1854,7 +2148,7 @@ func TestVerif(t *testing.T) {
 		if cr.nProduced > 0 && cr.nRefused > 0 && cr.ncalls > 0 {
 			distinct[fmt.Sprintf("%d|%d|%s", init, limit, strings.Join(items, ";"))] = true
 		}
-		rp := Replay{Seed: j.seed, Case: j.c, Init: init, Limit: limit, Lazy: opt.lazy, Loop: opt.loop, History: hist}
+		rp := Replay{Seed: j.seed, Case: j.c, Init: init, Limit: limit, Lazy: opt.lazy, Loop: opt.loop, Life: opt.life, History: hist}
 		for vi, sig := range cr.viol {
 			fails := func(h []Item) bool {
 				if len(h) == 0 {
@@ -1870,14 +2164,20 @@ func TestVerif(t *testing.T) {
 				sh = shrinkInjects(vgen.Shrink(hist, fails), fails)
 			}
 			res.Violations = append(res.Violations, vgen.Violation{Signature: sig, What: cr.what[vi], Case: ji,
-				Replay: Replay{Seed: j.seed, Case: j.c, Init: init, Limit: limit, Lazy: opt.lazy, Loop: opt.loop, History: sh}})
+				Replay: Replay{Seed: j.seed, Case: j.c, Init: init, Limit: limit, Lazy: opt.lazy, Loop: opt.loop, Life: opt.life, History: sh}})
 		}
 		var chain []string
 		for _, b := range cr.chain {
 			chain = append(chain, vgen.Bool(b))
 		}
-		mod := fmt.Sprintf("Module C%d.\nDefinition c : tcase := {| tc_init := %s; tc_limit := %s;\n tc_hist := %s;\n tc_outs := %s;\n tc_chain := %s; tc_hacc := %s; tc_dacc := %s |}.\nEnd C%d.",
-			ji, vgen.N(init), vgen.N(limit), vgen.List(items), vgen.List(outs), vgen.List(chain), nlist(cr.hacc), nlist(cr.dacc), ji)
+		var live []string
+		if opt.life {
+			for _, o := range cr.outs {
+				live = append(live, "("+vgen.Bool(o.lh)+", "+vgen.Bool(o.ld)+")")
+			}
+		}
+		mod := fmt.Sprintf("Module C%d.\nDefinition c : tcase := {| tc_init := %s; tc_limit := %s;\n tc_hist := %s;\n tc_outs := %s;\n tc_chain := %s; tc_hacc := %s; tc_dacc := %s; tc_live := %s |}.\nEnd C%d.",
+			ji, vgen.N(init), vgen.N(limit), vgen.List(items), vgen.List(outs), vgen.List(chain), nlist(cr.hacc), nlist(cr.dacc), vgen.List(live), ji)
 		defsAll = append(defsAll, mod)
 		cases = append(cases, fmt.Sprintf("C%d.c", ji))
 		res.Replays[fmt.Sprint(ji)] = rp
@@ -1886,7 +2186,7 @@ func TestVerif(t *testing.T) {
 		}
 	}
 	res.Distinct = len(distinct)
-	res.Rule = "real aggregator Manager (NewManager, real store/signer/publishBlockInternal) with MaxPendingHeadersAndData L in 1..10 and initial height in {1 (3/7), 2, 5, 12, 1000}; block mix per case: all-empty, all non-empty, 50% or 25% non-empty (the block at the initial height is always the stored genesis block, empty); histories of 4..maxLen items: bursts of 1..L+1 production attempts, single header / data submission iterations through the hooks (body of HeaderSubmissionLoop / DataSubmissionLoop), restarts (NewManager on the same datastore); every DA call answered truthfully from a script: accept all (40%), outage of 1..5 answers then acceptance, outage of 30..65 answers (> maxSubmitAttempts), outage until the context ends, acceptance of 1..3 blobs at a time, context cancelled at once; 80% of histories end with 2..2L+3 rounds of (header iteration, data iteration in either order against an accepting DA layer, then one production attempt) on which resumption / no-deadlock is judged; after every such pair of iterations no committed block may be left waiting; refusal-justified and limit-enforced are judged at every production attempt; CONFIGURATION per case, drawn independently of the history: config.Node.LazyMode on / off (1/2 each), and how a submission iteration is run (1/2 each): ONE TICK OF THE REAL HeaderSubmissionLoop / DataSubmissionLoop (the exported loop function started in its own goroutine with its own ticker, virtual time; it serves its first tick completely — all attempts, all backoff sleeps — and is ended when it calls isEmpty() for the second time; result class from what the loop did: read the pending range? reached the DA layer? logged an error itself?) or the loop body through the verif hooks; limits of the general stream: every value 1..10 (1, 2, 3, 10 twice as often); plus a BLOB-SIZE stream of N/10 cases, always on the real loops: limit 1..10, lazy or normal, blocks whose transactions weigh 1 KB .. 1.9 MB (40% log-uniform over the whole range, 30% within 4 KB of 64 KiB / 128 KiB / 256 KiB / 512 KiB / 1 MiB / 1.5 MiB / 100 000 / 250 000 / 500 000 / 750 000 / 1 000 000 / 1 250 000 / 1 500 000 / 1 750 000 / 1 900 000, 30% uniform in 1.0 .. 1.9 MB; 1..3 transactions; the DA double takes blobs up to 1 974 272 bytes), up to 4 such blocks per case with empty blocks in between, the data loop meeting a DA layer that takes one blob at a time / fails 1..3 times / fails 30 times, then a sized block followed by L-1 more blocks with transactions and 2..4 rounds — same model comparison (blob heights of EVERY DA request, watermarks) and oracles, plus: no request without a blob (empty-da-request); plus a size-boundary stream (2 cases per run, 3 per thorough shard): limit in {255,256,257,300,1000}, idle stretches of 255/256/257/600 attempts without transactions in a row (run-length item IProduceEmptyN, expanded inside Coq) before / between blocks with transactions, DA layer healthy, 3..5 closing rounds, same oracles; INTERLEAVED attempts (item produce_i: 1/8 of the attempts of the general histories, plus an interleaving stream of N/3 cases: limit in 1..10, bursts of L-1..L+1 blocks with the header loop keeping up and the data loop lagging, then 1..3 attempts with submission iterations inside, restarts, closing rounds): the store handed to the Manager is wrapped and at chosen store calls of publishBlockInternal (reads of numPendingHeaders / numPendingData / getPending, the fetches and watermark steps of numWaitingData, the calls of block building up to SetHeight) 1..2 header / data iterations (70% against an accepting DA layer, else any script) run synchronously before the call proceeds, or a header iteration at every call of numWaitingData's window; the point is classified from the call stack and handed to the model as a ThrottleConc.sched; oracle for such an attempt: a refusal needs L blocks waiting when the attempt BEGAN (it may be out of date when it returns), a refused attempt with an accepted header and data iteration inside leaves nothing waiting, and any later refusal with fewer than L blocks waiting is reported as refused-again-after-stale-refusal; PAYLOADS: a block with transactions carries either a fresh random transaction list (1..3 txs) or, in half of the general and interleaving histories with probability 2/3 per block, one of a pool of 1..3 FIXED lists, so that blocks at different heights have equal transaction lists (equal Data.Hash / DACommitment); plus a repeated-payload stream of N/6 cases (the first three: limit 1, 2, 3 with a heartbeat transaction in every block): limit in {1,2,3}, DA layer accepting, shapes: the same list in every block with the loops running after every block or every L blocks / A, B, A and then the last L blocks all equal to A / the first list coming back after other lists and empty blocks / any mix over a pool of two lists, fresh lists and empty blocks; then optionally a restart, and a tail of rounds (both iterations against the accepting DA layer, one attempt): an idle chain of L+2..L+3 empty blocks, or L+2 more blocks of the same list, or L+1 fresh lists, then idle; the model identifies a block by empty / non-empty only (a repeated list is a block with transactions like any other) and the same comparison and oracles apply; all in synctest bubbles (virtual time); non-trivial = at least one block produced, one refusal and one DA call; distinct = distinct (initial height, limit, model history) terms"
+	res.Rule = "real aggregator Manager (NewManager, real store/signer/publishBlockInternal) with MaxPendingHeadersAndData L in 1..10 and initial height in {1 (3/7), 2, 5, 12, 1000}; block mix per case: all-empty, all non-empty, 50% or 25% non-empty (the block at the initial height is always the stored genesis block, empty); histories of 4..maxLen items: bursts of 1..L+1 production attempts, single header / data submission iterations through the hooks (body of HeaderSubmissionLoop / DataSubmissionLoop), restarts (NewManager on the same datastore); every DA call answered truthfully from a script: accept all (40%), outage of 1..5 answers then acceptance, outage of 30..65 answers (> maxSubmitAttempts), outage until the context ends, acceptance of 1..3 blobs at a time, context cancelled at once; 80% of histories end with 2..2L+3 rounds of (header iteration, data iteration in either order against an accepting DA layer, then one production attempt) on which resumption / no-deadlock is judged; after every such pair of iterations no committed block may be left waiting; refusal-justified and limit-enforced are judged at every production attempt; CONFIGURATION per case, drawn independently of the history: config.Node.LazyMode on / off (1/2 each), and how a submission iteration is run (1/2 each): ONE TICK OF THE REAL HeaderSubmissionLoop / DataSubmissionLoop (the exported loop function started in its own goroutine with its own ticker, virtual time; it serves its first tick completely — all attempts, all backoff sleeps — and is ended when it calls isEmpty() for the second time; result class from what the loop did: read the pending range? reached the DA layer? logged an error itself?) or the loop body through the verif hooks; of the cases on the real loops, half (and every case of the DA-outage stream) run with LONG-LIVED loops: HeaderSubmissionLoop and DataSubmissionLoop are started once per process exactly as node/full.go starts them, the same two goroutines serve every tick of the history (parked in between at the isEmpty() read that begins an iteration, reached on their own ticker), a restart cancels their context and the new process starts its own; a loop function that has returned serves no tick (result class 5) and nobody does its work; per item the harness reports whether each loop function is still running (compared with Model/ThrottleLoop.v: always); plus a DA-OUTAGE stream of N/10 cases (long-lived loops, limit 1..5, initial height 1/2/5, block mix 100/70/40/0 % with transactions): some blocks with the loops keeping up or not, then 1..2 outages of finite length spanning 1..4 ticks of each loop, one failure kind per outage (timeout / mempool / too big / sequence / generic), every tick of the outage ending with the iteration giving up after 30..34 failures or with the DA layer answering 'context canceled' (at once or after 1..4 failures; the node's own context is alive), production attempted meanwhile up to and at the limit, a restart now and then, then 2..L+2 rounds against the accepting DA layer (both ticks in either order, one attempt) judged by the same oracles; limits of the general stream: every value 1..10 (1, 2, 3, 10 twice as often); plus a BLOB-SIZE stream of N/10 cases, always on the real loops: limit 1..10, lazy or normal, blocks whose transactions weigh 1 KB .. 1.9 MB (40% log-uniform over the whole range, 30% within 4 KB of 64 KiB / 128 KiB / 256 KiB / 512 KiB / 1 MiB / 1.5 MiB / 100 000 / 250 000 / 500 000 / 750 000 / 1 000 000 / 1 250 000 / 1 500 000 / 1 750 000 / 1 900 000, 30% uniform in 1.0 .. 1.9 MB; 1..3 transactions; the DA double takes blobs up to 1 974 272 bytes), up to 4 such blocks per case with empty blocks in between, the data loop meeting a DA layer that takes one blob at a time / fails 1..3 times / fails 30 times, then a sized block followed by L-1 more blocks with transactions and 2..4 rounds — same model comparison (blob heights of EVERY DA request, watermarks) and oracles, plus: no request without a blob (empty-da-request); plus a size-boundary stream (2 cases per run, 3 per thorough shard): limit in {255,256,257,300,1000}, idle stretches of 255/256/257/600 attempts without transactions in a row (run-length item IProduceEmptyN, expanded inside Coq) before / between blocks with transactions, DA layer healthy, 3..5 closing rounds, same oracles; INTERLEAVED attempts (item produce_i: 1/8 of the attempts of the general histories, plus an interleaving stream of N/3 cases: limit in 1..10, bursts of L-1..L+1 blocks with the header loop keeping up and the data loop lagging, then 1..3 attempts with submission iterations inside, restarts, closing rounds): the store handed to the Manager is wrapped and at chosen store calls of publishBlockInternal (reads of numPendingHeaders / numPendingData / getPending, the fetches and watermark steps of numWaitingData, the calls of block building up to SetHeight) 1..2 header / data iterations (70% against an accepting DA layer, else any script) run synchronously before the call proceeds, or a header iteration at every call of numWaitingData's window; the point is classified from the call stack and handed to the model as a ThrottleConc.sched; oracle for such an attempt: a refusal needs L blocks waiting when the attempt BEGAN (it may be out of date when it returns), a refused attempt with an accepted header and data iteration inside leaves nothing waiting, and any later refusal with fewer than L blocks waiting is reported as refused-again-after-stale-refusal; PAYLOADS: a block with transactions carries either a fresh random transaction list (1..3 txs) or, in half of the general and interleaving histories with probability 2/3 per block, one of a pool of 1..3 FIXED lists, so that blocks at different heights have equal transaction lists (equal Data.Hash / DACommitment); plus a repeated-payload stream of N/6 cases (the first three: limit 1, 2, 3 with a heartbeat transaction in every block): limit in {1,2,3}, DA layer accepting, shapes: the same list in every block with the loops running after every block or every L blocks / A, B, A and then the last L blocks all equal to A / the first list coming back after other lists and empty blocks / any mix over a pool of two lists, fresh lists and empty blocks; then optionally a restart, and a tail of rounds (both iterations against the accepting DA layer, one attempt): an idle chain of L+2..L+3 empty blocks, or L+2 more blocks of the same list, or L+1 fresh lists, then idle; the model identifies a block by empty / non-empty only (a repeated list is a block with transactions like any other) and the same comparison and oracles apply; all in synctest bubbles (virtual time); non-trivial = at least one block produced, one refusal and one DA call; distinct = distinct (initial height, limit, model history) terms"
 	res.Cases = len(cases)
 	header := "From Coq Require Import NArith List Bool.\nFrom Verif Require Import Model.Throttle Model.ThrottleConc Check.ThrottleCheck."
 	path := filepath.Join(e.Out, "cases_C08.v")
